@@ -3451,6 +3451,9 @@ def unused_zip_args(source: str) -> str:
         ast.For(iter=iter_template, target=target_template),
     )
 
+    if _reads_underscore(root):
+        return
+
     safe_callables = parsing.safe_callable_names(root)
     for transaction, (node, elts, func, node_iter) in enumerate(core.walk_wildcard(root, template)):
         new_elts = []
